@@ -6,7 +6,7 @@ from .. import oracles as orc
 from ..gen import J
 
 PROP = "C03"
-HOSTILE = ('scale',)
+HOSTILE = ('scale', 'special')
 MONITORS = ("WF",)
 ANCHORS = [("measure.py", "GaussianMeasure.integrate"), ("measure.py", "GaussianMeasure._get_default"),
            ("measure.py", "GaussianMeasure.integrate_cubic_outer"),
